@@ -68,6 +68,7 @@ type writeEffect struct {
 	fn   *ssa.Function   // function containing the write instruction
 	via  []*ssa.Function // call chain from the summarised function down to fn
 	kind string          // "store" | "mapupdate" | "append-in-place" | "call:<ext>"
+	keyParam1 int        // a map update made by the summarised function itself whose key is its parameter number keyParam1-1 (0: none)
 }
 
 type fnSummary struct {
@@ -570,7 +571,21 @@ func (ea *effectAnalysis) analyse(fn *ssa.Function) bool {
 			case *ssa.Store:
 				addWrite(st.ownOf(x.Addr), "store to "+valueDesc(x.Addr), "store", in, nil, fn, m.InstrPos(in))
 			case *ssa.MapUpdate:
+				n0 := len(sum.writes)
 				addWrite(st.ownOf(x.Map), "map update "+valueDesc(x.Map)+"[...]", "mapupdate", in, nil, fn, m.InstrPos(in))
+				kv := x.Key
+				if cv, isCv := kv.(*ssa.Convert); isCv {
+					kv = cv.X
+				}
+				if kp, isPar := kv.(*ssa.Parameter); isPar {
+					for pi, q := range fn.Params {
+						if q == kp {
+							for i := n0; i < len(sum.writes); i++ {
+								sum.writes[i].keyParam1 = pi + 1
+							}
+						}
+					}
+				}
 			case *ssa.UnOp:
 				if x.Op == token.MUL {
 					if g, ok := x.X.(*ssa.Global); ok {
